@@ -183,6 +183,8 @@ def stepLine (d : DSt) (toks : List String) : DSt × String :=
   | "stress" :: _ => (d, "done")
   | "burst" :: _ => (d, "done")
   | "addrace" :: _ => (d, "done")
+  | "addburst" :: _ => (d, "done")
+  | "sdrace" :: _ => (d, "done")
   | ["check"] =>
     let ans := match firstBad d.trace with
       | none => "accept"
